@@ -429,6 +429,17 @@ CHECKS += [
          technique="lifted execution of the decompose transform on z3 circle-polynomial terms; z3 QF_NRA equality proofs of circuit unitaries; structural gate-set / budget / estimate comparison"),
 ]
 
+CHECKS += [
+    dict(property_id="C13", category="proof", engine=E1,
+         text="Every registered decomposition rule (qp.list_decomps over 22 candidate operators incl. control-value and wire-order variants) whose emitted circuit contains a "
+              "mid-circuit or Pauli-product measurement is collected automatically (currently: adjoint TemporaryAND by measurement, Hadamard PPM, CNOT / CZ / CY lattice-surgery "
+              "PPM). The emitted circuit runs in the branch interpreter with the measurement OUTCOMES AS SOLVER VARIABLES (m*(m-1)=0; conditions fork through the solver); z3 "
+              "proves for ALL outcome vectors that the applied map equals the operator's unitary (x) a work-wire vector, that the work wires end in one outcome-independent "
+              "state, and that every outcome pattern has weight 2^-k, on the operator's documented input domain.",
+         note=PROOF_NOTE + " Global phases per branch are not compared (the property allows them). Outside: measurement-based uncomputation inside templates (QROM / QRAM / QFT), parametrised measurement bases (C74).",
+         technique="symbolic-outcome branch interpretation of the real rules' circuits on z3 polynomial terms; z3 QF_NRA validity queries over all outcome vectors"),
+]
+
 _NOT_BUILT = "claimed in DESIGN.md §4 but its solver-based check is not built yet in this tree"
 NOT_APPLICABLE_REASONS = {
     "C04": "equality/hash: Python hash() of concrete payloads and tolerance-based allclose relations; no exact relation a solver can decide",
